@@ -26,12 +26,6 @@ import (
 	"github.com/nspcc-dev/neofs-node/verifharness/uni"
 )
 
-// Fingerprints of suspected/known findings (honoured only when listed as open).
-const (
-	fpLockHidesTombstone = "C01:lock-admitted-on-expired-tombstoned-target-hides-tombstone"
-	fpFirstLockOnly      = "C01:garbage-marked-first-lock-hides-second-live-lock"
-)
-
 type checker struct {
 	t   *rapid.T
 	w   *drv.World
@@ -86,34 +80,6 @@ func (c *checker) lockAmbiguous(a mm.Addr) bool {
 		x = mm.Addr{C: a.C, I: p}
 	}
 	return false
-}
-
-// countKnown records occurrences of states covered by recorded findings (the
-// model follows the implementation there, see metamodel.Quirks).
-func (c *checker) countKnown() {
-	m, e := c.w.M, c.w.Epoch
-	q := m.Quirks
-	if !q.FirstLockOnly && !q.LockOverridesTombstone {
-		return
-	}
-	for ci := 0; ci < c.w.Cat.NC; ci++ {
-		for i := 0; i < uni.NObjects; i++ {
-			a := mm.Addr{C: ci, I: i}
-			withQ := m.Reasons(a, e, false)
-			lq := m.Locked(a, e, false)
-			m.Quirks = mm.Quirks{}
-			strict := m.Reasons(a, e, false)
-			ls := m.Locked(a, e, false)
-			m.Quirks = q
-			if ls != lq {
-				c.rec.Known(fpFirstLockOnly)
-				c.rec.Excluded(1)
-			} else if (withQ == 0) != (strict == 0) {
-				c.rec.Known(fpLockHidesTombstone)
-				c.rec.Excluded(1)
-			}
-		}
-	}
 }
 
 func (c *checker) checkAddr(a mm.Addr) {
@@ -457,19 +423,6 @@ func TestC01Views(t *testing.T) {
 		defer func() { _ = b.Close() }()
 		w := drv.NewWorld(cat, b, ep)
 		ck := &checker{t: t, w: w, rec: rec}
-		w.OnAdmission = func(w *drv.World, s uni.Spec, model, real mm.Class) bool {
-			if s.Kind == uni.Lock && model == mm.AlreadyRemoved && real == mm.OK && rec.Known(fpLockHidesTombstone) {
-				w.M.Quirks.LockOverridesTombstone = true
-				return true
-			}
-			return false
-		}
-		if ev.IsOpen("C01", fpLockHidesTombstone) {
-			w.M.Quirks.LockOverridesTombstone = true
-		}
-		if ev.IsOpen("C01", fpFirstLockOnly) {
-			w.M.Quirks.FirstLockOnly = true
-		}
 		defer func() {
 			nontrivial := (w.Seen["mark"] || w.Seen["tombstone"] || w.Seen["container-removed"] || w.Seen["delete"]) &&
 				(w.Seen["lock"] || w.Seen["child"] || ck.multiReason || (w.Seen["epoch-advance"] && ck.nonAvailSeen)) && ck.nonAvailSeen
@@ -494,7 +447,6 @@ func TestC01Views(t *testing.T) {
 		acts := w.Actions()
 		acts[""] = func(t *rapid.T) {
 			ck.t, ck.db = t, b.DB
-			ck.countKnown()
 			for ci := 0; ci < cat.NC; ci++ {
 				for i := 0; i < uni.NObjects; i++ {
 					ck.checkAddr(mm.Addr{C: ci, I: i})
